@@ -29,6 +29,7 @@ TECHNIQUE += '; values read from a configuration object are not mutated in place
 LEVEL_TEXT += " Added clause: a list held by the caller's configuration is not extended by a call."
 TECHNIQUE += '; parameters stored on a cached object are keyed; results of memoised functions are not mutated (= C17.R5)'
 TECHNIQUE += '; process-wide containers are builtin containers (no Python-level item access shared between threads)'
+TECHNIQUE += '; per-call state ends with the call: self-fed attributes of the parser (configuration) are restored on every exit of bound(), normal or exceptional (C10.R11, path-state execution)'
 LEVEL_TEXT += ' Added clause: caches shared by all threads do their lookups and stores in one step.'
 LEVEL_NOTE = 'Trusted: dataclasses.replace / ParserConfig.new / Config.override return new objects; id(x) of a dead object can be reused.'
 EXPLANATION = ('Static analysis of /repo sources, TatSu not imported. Def-use chains inside api.compile relate parameters to '
